@@ -86,18 +86,56 @@ Proof. intros P O. apply (P _ _ O). Qed.
 
 (** * the invariant: caller-reachable cells and object-retained cells are disjoint by ownership *)
 
-Definition obj_ok (h : heap) (ob : object) : Prop := Forall (Forall (obj_owned h)) (o_groups ob).
+Definition memo_ok (h : heap) (b : body) : Prop :=
+  match b_memo b with
+  | MFired m => obj_owned h m /\ read h m = flat_map (read h) (group b 1)
+  | _ => True
+  end.
+
+Definition body_ok (h : heap) (b : body) : Prop :=
+  Forall (Forall (obj_owned h)) (b_groups b) /\ memo_ok h b.
 
 Definition inv (st : state) : Prop :=
-  Forall (obj_ok (st_heap st)) (st_objs st) /\ Forall (caller_owned (st_heap st)) (st_caller st).
+  Forall (body_ok (st_heap st)) (st_bodies st) /\
+  Forall (caller_owned (st_heap st)) (st_caller st) /\
+  Forall (fun bi => bi < length (st_bodies st)) (st_objs st).
 
 Lemma inv_init : inv init.
-Proof. split; constructor. Qed.
+Proof. repeat split; constructor. Qed.
 
-Lemma obj_ok_preserved h h' ob : preserves h h' -> obj_ok h ob -> obj_ok h' ob.
+Lemma group_owned h b g : Forall (Forall (obj_owned h)) (b_groups b) -> Forall (obj_owned h) (group b g).
 Proof.
-  intros P H. unfold obj_ok in *. eapply Forall_impl; [|exact H].
-  intros vs Hvs. eapply Forall_impl; [|exact Hvs]. intros v. apply obj_owned_preserved; assumption.
+  intros H. unfold group. destruct (Nat.lt_ge_cases g (length (b_groups b))) as [L|L].
+  - rewrite Forall_forall in H. apply H. apply nth_In. exact L.
+  - rewrite nth_overflow by assumption. constructor.
+Qed.
+
+Lemma flat_read_preserved h h' vs : preserves h h' -> Forall (obj_owned h) vs ->
+  flat_map (read h') vs = flat_map (read h) vs.
+Proof.
+  intros P H. induction H as [|v r Hv _ IH]; [reflexivity|]. cbn.
+  rewrite (read_preserved _ _ v P Hv), IH. reflexivity.
+Qed.
+
+Lemma body_ok_preserved h h' b : preserves h h' -> body_ok h b -> body_ok h' b.
+Proof.
+  intros P (G & M). split.
+  - eapply Forall_impl; [|exact G]. intros vs Hvs. eapply Forall_impl; [|exact Hvs].
+    intros v. apply obj_owned_preserved; assumption.
+  - unfold memo_ok in *. destruct (b_memo b) as [| |m]; try exact I.
+    destruct M as (Om & Em). split; [eapply obj_owned_preserved; eassumption|].
+    rewrite (read_preserved _ _ m P Om), Em. symmetry. apply flat_read_preserved; [exact P|].
+    apply group_owned. exact G.
+Qed.
+
+Lemma obs_body_preserved h h' b g : preserves h h' -> body_ok h b -> obs_body h' b g = obs_body h b g.
+Proof.
+  intros P (G & M). unfold obs_body.
+  assert (F : flat_map (read h') (group b g) = flat_map (read h) (group b g))
+    by (apply flat_read_preserved; [exact P|apply group_owned; exact G]).
+  destruct g as [|[|g]]; try exact F.
+  unfold memo_ok in M. destruct (b_memo b) as [| |m]; try exact F.
+  destruct M as (Om & _). apply read_preserved; assumption.
 Qed.
 
 Lemma copy_in_spec vs : forall h id h' ws, copy_in h id vs = (h', ws) ->
@@ -117,78 +155,150 @@ Proof.
     exists id. apply (P2 _ _ O1).
 Qed.
 
-Lemma obs_preserved st st' o g :
-  preserves (st_heap st) (st_heap st') ->
-  (forall ob, nth_error (st_objs st) o = Some ob -> nth_error (st_objs st') o = Some ob) ->
-  inv st -> o < length (st_objs st) -> obs st' o g = obs st o g.
+(** [st'] extends [st]: frame heap, old bodies kept, old objects kept *)
+Definition extends (st st' : state) : Prop :=
+  preserves (st_heap st) (st_heap st') /\
+  (exists nb, st_bodies st' = st_bodies st ++ nb) /\
+  (exists no, st_objs st' = st_objs st ++ no).
+
+Lemma obs_extends st st' o g : inv st -> extends st st' -> o < length (st_objs st) ->
+  obs st' o g = obs st o g.
 Proof.
-  intros P Hobjs (Io & _) Lo. unfold obs.
-  destruct (nth_error (st_objs st) o) as [ob|] eqn:E; [|apply nth_error_None in E; lia].
-  rewrite (Hobjs ob eq_refl).
-  rewrite Forall_forall in Io. pose proof (Io ob (nth_error_In _ _ E)) as Hob.
-  unfold obj_ok, group in *.
-  assert (Hg : Forall (obj_owned (st_heap st)) (nth g (o_groups ob) [])).
-  { destruct (Nat.lt_ge_cases g (length (o_groups ob))) as [L|L].
-    - rewrite Forall_forall in Hob. apply Hob. apply nth_In. exact L.
-    - rewrite nth_overflow by assumption. constructor. }
-  induction Hg as [|v r Hv _ IH]; [reflexivity|]. cbn.
-  rewrite (read_preserved _ _ v P Hv), IH. reflexivity.
+  intros (Ib & _ & Io) (P & (nb & Eb) & (no & Eo)) L. unfold obs, body_of.
+  rewrite Eo, Eb. rewrite nth_error_app1 by assumption.
+  destruct (nth_error (st_objs st) o) as [bi|] eqn:E; [|reflexivity].
+  rewrite Forall_forall in Io. pose proof (Io bi (nth_error_In _ _ E)) as Lb.
+  rewrite nth_error_app1 by assumption.
+  destruct (nth_error (st_bodies st) bi) as [b|] eqn:Eb'; [|reflexivity].
+  apply obs_body_preserved; [exact P|]. rewrite Forall_forall in Ib. apply Ib. eapply nth_error_In. exact Eb'.
 Qed.
 
-Lemma nth_error_app_keep {A} (l : list A) x o ob :
-  nth_error l o = Some ob -> nth_error (l ++ [x]) o = Some ob.
-Proof. intros H. rewrite nth_error_app1; [exact H|]. apply nth_error_Some. congruence. Qed.
-
-Lemma frame_intro st st' newobjs newcv :
-  preserves (st_heap st) (st_heap st') ->
-  st_objs st' = st_objs st ++ newobjs -> Forall (obj_ok (st_heap st')) newobjs ->
-  st_caller st' = st_caller st ++ newcv -> Forall (caller_owned (st_heap st')) newcv ->
-  inv st ->
-  inv st' /\ preserves (st_heap st) (st_heap st') /\
-  (forall o ob, nth_error (st_objs st) o = Some ob -> nth_error (st_objs st') o = Some ob).
+Lemma inv_extends st st' nb no ncv :
+  inv st -> preserves (st_heap st) (st_heap st') ->
+  st_bodies st' = st_bodies st ++ nb -> Forall (body_ok (st_heap st')) nb ->
+  st_objs st' = st_objs st ++ no -> Forall (fun bi => bi < length (st_bodies st')) no ->
+  st_caller st' = st_caller st ++ ncv -> Forall (caller_owned (st_heap st')) ncv ->
+  inv st' /\ extends st st'.
 Proof.
-  intros P Eo Fo Ec Fc (Io & Ic). split; [split|split; [exact P|]].
-  - rewrite Eo. apply Forall_app. split; [|exact Fo].
-    eapply Forall_impl; [|exact Io]. intros ob. apply obj_ok_preserved. exact P.
+  intros (Ib & Ic & Io) P Eb Fb Eo Fo Ec Fc. split; [split; [|split]|].
+  - rewrite Eb. apply Forall_app. split; [|exact Fb].
+    eapply Forall_impl; [|exact Ib]. intros b. apply body_ok_preserved. exact P.
   - rewrite Ec. apply Forall_app. split; [|exact Fc].
     eapply Forall_impl; [|exact Ic]. intros v. apply caller_owned_preserved. exact P.
-  - intros o ob H. rewrite Eo. rewrite nth_error_app1; [exact H|]. apply nth_error_Some. congruence.
+  - rewrite Eo. apply Forall_app. split; [|exact Fo].
+    eapply Forall_impl; [|exact Io]. intros bi Hbi. rewrite Eb, app_length. cbn in *. lia.
+  - split; [exact P|]. split; eauto.
 Qed.
 
-Lemma frame_same st : inv st ->
-  inv st /\ preserves (st_heap st) (st_heap st) /\
-  (forall o ob, nth_error (st_objs st) o = Some ob -> nth_error (st_objs st) o = Some ob).
-Proof. intros I. split; [exact I|split; [apply preserves_refl|auto]]. Qed.
+Lemma set_nth_length {A} (l : list A) i x : length (set_nth l i x) = length l.
+Proof. revert i; induction l as [|a r IH]; intros i; cbn; [reflexivity|]. destruct i; cbn; [reflexivity|]. rewrite IH. reflexivity. Qed.
 
-(** one API call or caller write (not an ownership transfer): the invariant is kept, the heap is
-    only extended or rewritten in caller-owned cells, existing objects stay what they are *)
-Lemma step_frame st p : inv st -> is_owned p = false ->
-  inv (step st p) /\ preserves (st_heap st) (st_heap (step st p)) /\
-  (forall o ob, nth_error (st_objs st) o = Some ob -> nth_error (st_objs (step st p)) o = Some ob).
+Lemma Forall_set_nth {A} (P : A -> Prop) (l : list A) i x : Forall P l -> P x -> Forall P (set_nth l i x).
 Proof.
-  intros I Hp. assert (I0 := I). destruct I0 as (Io & Ic).
-  destruct p as [d|cv i x|cvs|cv k skip hl|cv k skip hl|o g|o g cv|o]; try discriminate; cbn [step].
+  intros H Hx. revert i. induction H as [|a r Ha Hr IH]; intros i; cbn; [constructor|].
+  destruct i; constructor; auto.
+Qed.
+
+(** firing the memo: an object-owned cell appears, nothing anybody can observe changes *)
+Lemma fire_spec st o g : inv st ->
+  inv (fire st o g) /\ preserves (st_heap st) (st_heap (fire st o g)) /\
+  st_objs (fire st o g) = st_objs st /\ st_caller (fire st o g) = st_caller st /\
+  (forall o' g', obs (fire st o g) o' g' = obs st o' g').
+Proof.
+  intros I. assert (I0 := I). destruct I0 as (Ib & Ic & Io).
+  assert (Same : inv st /\ preserves (st_heap st) (st_heap st) /\ st_objs st = st_objs st /\
+                 st_caller st = st_caller st /\ (forall o' g', obs st o' g' = obs st o' g')).
+  { split; [exact I|split; [apply preserves_refl|split; [reflexivity|split; [reflexivity|intros; reflexivity]]]]. }
+  unfold fire. destruct (negb (Nat.eqb g 1)); [exact Same|].
+  destruct (nth_error (st_objs st) o) as [bi|] eqn:Eo; [|exact Same].
+  destruct (nth_error (st_bodies st) bi) as [b|] eqn:Eb; [|exact Same].
+  destruct (b_memo b) eqn:Em; try exact Same.
+  set (d := flat_map (read (st_heap st)) (group b 1)).
+  pose proof (preserves_alloc (st_heap st) (Obj bi) d) as P.
+  pose proof (alloc_owner (st_heap st) (Obj bi) d) as O.
+  pose proof (alloc_data (st_heap st) (Obj bi) d) as D.
+  destruct (alloc (st_heap st) (Obj bi) d) as [h1 a] eqn:Ea. cbn [fst snd] in P, O, D. cbn [st_heap st_objs st_caller st_bodies].
+  assert (Lbi : bi < length (st_bodies st)) by (apply nth_error_Some; congruence).
+  assert (Bok : body_ok (st_heap st) b).
+  { rewrite Forall_forall in Ib. apply Ib. eapply nth_error_In. exact Eb. }
+  assert (Rm : read h1 (whole a (length d)) = d).
+  { unfold read, whole, sub. cbn. rewrite D. rewrite firstn_all. reflexivity. }
+  assert (Fd : flat_map (read h1) (group b 1) = d).
+  { unfold d. apply flat_read_preserved; [exact P|]. apply group_owned. apply Bok. }
+  set (b' := {| b_groups := b_groups b; b_memo := MFired (whole a (length d)) |}).
+  assert (Bok' : body_ok h1 b').
+  { destruct (body_ok_preserved _ _ b P Bok) as (G & _). split; [exact G|].
+    unfold memo_ok, b'. cbn [b_memo]. split; [exists bi; exact O|]. rewrite Rm. symmetry. exact Fd. }
+  split; [split; [|split]|split; [exact P|split; [reflexivity|split; [reflexivity|]]]].
+  - cbn. apply Forall_set_nth; [|exact Bok'].
+    eapply Forall_impl; [|exact Ib]. intros x. apply body_ok_preserved. exact P.
+  - cbn. eapply Forall_impl; [|exact Ic]. intros v. apply caller_owned_preserved. exact P.
+  - cbn. rewrite set_nth_length. exact Io.
+  - intros o' g'. unfold obs, body_of. cbn.
+    destruct (nth_error (st_objs st) o') as [bj|] eqn:Eo'; [|reflexivity].
+    destruct (Nat.eq_dec bi bj) as [<-|Hne].
+    + rewrite set_nth_same by assumption. rewrite Eb.
+      unfold obs_body. cbn [b_memo b']. rewrite Em.
+      destruct g' as [|[|g'']]; cbn [b_groups b' group]; unfold group; cbn [b_groups].
+      * apply flat_read_preserved; [exact P|]. apply (group_owned _ b 0). apply Bok.
+      * rewrite Rm. reflexivity.
+      * apply flat_read_preserved; [exact P|]. apply (group_owned _ b (S (S g''))). apply Bok.
+    + rewrite set_nth_other by assumption.
+      destruct (nth_error (st_bodies st) bj) as [bb|] eqn:Ebj; [|reflexivity].
+      apply obs_body_preserved; [exact P|]. rewrite Forall_forall in Ib. apply Ib. eapply nth_error_In. exact Ebj.
+Qed.
+
+Definition obs_stable (st st' : state) : Prop :=
+  length (st_objs st) <= length (st_objs st') /\
+  forall o g, o < length (st_objs st) -> obs st' o g = obs st o g.
+
+Lemma extends_stable st st' : inv st -> extends st st' -> obs_stable st st'.
+Proof.
+  intros I E. split.
+  - destruct E as (_ & _ & (no & ->)). rewrite app_length. lia.
+  - intros o g L. apply obs_extends; assumption.
+Qed.
+
+(** one API call or caller write (not an ownership transfer) keeps the invariant and every
+    observation of every existing object *)
+Ltac prem := cbn [st_heap st_bodies st_objs st_caller add_object];
+  first [ assumption | apply preserves_refl | (rewrite app_nil_r; reflexivity) | reflexivity
+        | (apply Forall_nil) | idtac ].
+
+Lemma step_frame st p : inv st -> is_owned p = false -> inv (step st p) /\ obs_stable st (step st p).
+Proof.
+  intros I Hp. assert (I0 := I). destruct I0 as (Ib & Ic & Io).
+  assert (Same : inv st /\ obs_stable st st) by (split; [exact I|split; [lia|reflexivity]]).
+  destruct p as [d|cv i x|cvs lz|cv k skip hl|cv k skip hl|o g|o g cv|o]; try discriminate; cbn [step].
   - (* ONew *)
     pose proof (preserves_alloc (st_heap st) Caller d) as P.
     pose proof (alloc_owner (st_heap st) Caller d) as O.
     destruct (alloc (st_heap st) Caller d) as [h1 a] eqn:Ea. cbn [fst snd] in P, O.
-    apply (frame_intro st _ [] [whole a (length d)]); cbn; try assumption;
-      try (rewrite app_nil_r; reflexivity); try reflexivity; try constructor; try assumption; constructor.
+    match goal with |- inv ?S /\ _ => assert (X : inv S /\ extends st S) end.
+    { apply (inv_extends st _ [] [] [whole a (length d)] I); prem.
+      constructor; [exact O|constructor]. }
+    destruct X as (I' & E). split; [exact I'|apply extends_stable; assumption].
   - (* OWrite *)
-    unfold caller_view. destruct (nth_error (st_caller st) cv) as [v|] eqn:Ev; [|apply frame_same; exact I].
-    destruct (Nat.ltb i (v_len v)); [|apply frame_same; exact I].
-    rewrite Forall_forall in Ic. pose proof (Ic v (nth_error_In _ _ Ev)) as Hv.
+    unfold caller_view. destruct (nth_error (st_caller st) cv) as [v|] eqn:Ev; [|exact Same].
+    destruct (Nat.ltb i (v_len v)); [|exact Same].
+    assert (Ic' := Ic). rewrite Forall_forall in Ic'. pose proof (Ic' v (nth_error_In _ _ Ev)) as Hv.
     pose proof (preserves_update_caller (st_heap st) (v_cell v) (fun d => set_nth d (v_off v + i) x) Hv) as P.
-    apply (frame_intro st _ [] []); cbn; try assumption; try (rewrite app_nil_r; reflexivity); constructor.
+    match goal with |- inv ?S /\ _ => assert (X : inv S /\ extends st S) end.
+    { apply (inv_extends st _ [] [] [] I); prem. }
+    destruct X as (I' & E). split; [exact I'|apply extends_stable; assumption].
   - (* OConstruct *)
-    destruct (copy_in (st_heap st) (length (st_objs st)) (pick (st_caller st) cvs)) as [h1 ws] eqn:Ec.
+    destruct (copy_in (st_heap st) (length (st_bodies st)) (pick (st_caller st) cvs)) as [h1 ws] eqn:Ec.
     destruct (copy_in_spec _ _ _ _ _ Ec) as (P & F).
-    apply (frame_intro st _ [{| o_groups := [ws; ws] |}] []); cbn; try assumption;
-      try (rewrite app_nil_r; reflexivity); try reflexivity; [|constructor].
-    constructor; [|constructor]. unfold obj_ok. cbn. repeat constructor; exact F.
+    set (b := {| b_groups := [ws; ws]; b_memo := if lz then MUnfired else MNone |}).
+    assert (X : inv (add_object st h1 b) /\ extends st (add_object st h1 b)).
+    { apply (inv_extends st _ [b] [length (st_bodies st)] [] I); prem.
+      - constructor; [|constructor]. split; [repeat constructor; exact F|].
+        unfold memo_ok, b. cbn [b_memo]. destruct lz; exact Logic.I.
+      - constructor; [|constructor]. rewrite app_length. cbn. lia. }
+    destruct X as (I' & E). split; [exact I'|apply extends_stable; assumption].
   - (* ODecode *)
-    unfold caller_view. destruct (nth_error (st_caller st) cv) as [v|] eqn:Ev; [|apply frame_same; exact I].
-    set (d := read (st_heap st) v). set (id := length (st_objs st)).
+    unfold caller_view. destruct (nth_error (st_caller st) cv) as [v|] eqn:Ev; [|exact Same].
+    set (d := read (st_heap st) v). set (id := length (st_bodies st)).
     pose proof (preserves_alloc (st_heap st) (Obj id) d) as P1.
     pose proof (alloc_owner (st_heap st) (Obj id) d) as O1.
     destruct (alloc (st_heap st) (Obj id) d) as [h1 a] eqn:Ea. cbn [fst snd] in P1, O1.
@@ -198,56 +308,68 @@ Proof.
     destruct (alloc h1 (Obj id) d2) as [h2 t] eqn:Et. cbn [fst snd] in P2, O2.
     assert (P : preserves (st_heap st) h2) by (eapply preserves_trans; eassumption).
     assert (Oa : cell_owner h2 a = Some (Obj id)) by (apply (P2 _ _ O1)).
-    apply (frame_intro st _ [{| o_groups := decoded_groups k a (length d) skip hl t |}] []); cbn; try assumption;
-      try (rewrite app_nil_r; reflexivity); try reflexivity; [|constructor].
-    constructor; [|constructor]. unfold obj_ok, decoded_groups.
-    destruct k; repeat constructor; exists id; cbn; assumption.
+    set (b := {| b_groups := decoded_groups k a (length d) skip hl t; b_memo := MNone |}).
+    assert (X : inv (add_object st h2 b) /\ extends st (add_object st h2 b)).
+    { apply (inv_extends st _ [b] [length (st_bodies st)] [] I); prem.
+      - constructor; [|constructor]. split; [|exact Logic.I]. unfold b, decoded_groups. cbn [b_groups].
+        destruct k; repeat constructor; exists id; cbn; assumption.
+      - constructor; [|constructor]. rewrite app_length. cbn. lia. }
+    destruct X as (I' & E). split; [exact I'|apply extends_stable; assumption].
   - (* OGet *)
-    set (d := obs st o g).
-    pose proof (preserves_alloc (st_heap st) Caller d) as P.
-    pose proof (alloc_owner (st_heap st) Caller d) as O.
-    destruct (alloc (st_heap st) Caller d) as [h1 a] eqn:Ea. cbn [fst snd] in P, O.
-    apply (frame_intro st _ [] [whole a (length d)]); cbn; try assumption;
-      try (rewrite app_nil_r; reflexivity); try reflexivity; try constructor; try assumption; constructor.
+    destruct (fire_spec st o g I) as (I1 & P1 & Eo1 & Ec1 & Obs1).
+    set (st1 := fire st o g) in *. set (d := obs st1 o g).
+    pose proof (preserves_alloc (st_heap st1) Caller d) as P.
+    pose proof (alloc_owner (st_heap st1) Caller d) as O.
+    destruct (alloc (st_heap st1) Caller d) as [h1 a] eqn:Ea. cbn [fst snd] in P, O.
+    match goal with |- inv ?S /\ _ => assert (X : inv S /\ extends st1 S) end.
+    { apply (inv_extends st1 _ [] [] [whole a (length d)] I1); prem.
+      constructor; [exact O|constructor]. }
+    destruct X as (I' & E). split; [exact I'|].
+    destruct (extends_stable _ _ I1 E) as (L2 & S2). cbn [st_objs] in L2. split.
+    + cbn [st_objs]. rewrite Eo1. lia.
+    + intros o' g' L. rewrite S2 by (rewrite Eo1; exact L). apply Obs1.
   - (* OAppend *)
-    unfold caller_view. destruct (nth_error (st_caller st) cv) as [v|] eqn:Ev; [|apply frame_same; exact I].
-    assert (Ic' := Ic). rewrite Forall_forall in Ic'. pose proof (Ic' v (nth_error_In _ _ Ev)) as Hv.
-    pose proof (preserves_update_caller (st_heap st) (v_cell v)
-                  (fun old => firstn (v_off v + v_len v) old ++ obs st o g) Hv) as P.
-    apply (frame_intro st _ [] [{| v_cell := v_cell v; v_off := v_off v; v_len := v_len v + length (obs st o g) |}]);
-      cbn; try assumption; try (rewrite app_nil_r; reflexivity); try reflexivity; try constructor; try constructor.
-    unfold caller_owned. cbn. apply (P _ _ Hv).
+    destruct (fire_spec st o g I) as (I1 & P1 & Eo1 & Ec1 & Obs1).
+    set (st1 := fire st o g) in *.
+    assert (Same1 : inv st1 /\ obs_stable st st1).
+    { split; [exact I1|]. split; [rewrite Eo1; lia|]. intros; apply Obs1. }
+    unfold caller_view. destruct (nth_error (st_caller st1) cv) as [v|] eqn:Ev; [|exact Same1].
+    assert (I1' := I1). destruct I1' as (_ & Ic1 & _).
+    rewrite Forall_forall in Ic1. pose proof (Ic1 v (nth_error_In _ _ Ev)) as Hv.
+    set (d := obs st1 o g).
+    pose proof (preserves_update_caller (st_heap st1) (v_cell v)
+                  (fun old => firstn (v_off v + v_len v) old ++ d) Hv) as P.
+    match goal with |- inv ?S /\ _ => assert (X : inv S /\ extends st1 S) end.
+    { apply (inv_extends st1 _ [] [] [{| v_cell := v_cell v; v_off := v_off v; v_len := v_len v + length d |}] I1); prem.
+      constructor; [|constructor]. unfold caller_owned. cbn [v_cell]. apply (P _ _ Hv). }
+    destruct X as (I' & E). split; [exact I'|].
+    destruct (extends_stable _ _ I1 E) as (L2 & S2). cbn [st_objs] in L2. split.
+    + cbn [st_objs]. rewrite Eo1. lia.
+    + intros o' g' L. rewrite S2 by (rewrite Eo1; exact L). apply Obs1.
   - (* OShare *)
-    destruct (nth_error (st_objs st) o) as [ob|] eqn:Eo; [|apply frame_same; exact I].
-    apply (frame_intro st _ [ob] []); cbn; try apply preserves_refl; try assumption;
-      try (rewrite app_nil_r; reflexivity); try reflexivity; [|constructor].
-    constructor; [|constructor]. rewrite Forall_forall in Io. apply Io. eapply nth_error_In. exact Eo.
+    destruct (nth_error (st_objs st) o) as [bi|] eqn:Eo; [|exact Same].
+    match goal with |- inv ?S /\ _ => assert (X : inv S /\ extends st S) end.
+    { apply (inv_extends st _ [] [bi] [] I); prem.
+      constructor; [|constructor]. rewrite ?app_nil_r. rewrite Forall_forall in Io. apply Io.
+      eapply nth_error_In. exact Eo. }
+    destruct X as (I' & E). split; [exact I'|apply extends_stable; assumption].
 Qed.
 
-Lemma objs_monotone st p o : o < length (st_objs st) -> o < length (st_objs (step st p)).
+Lemma run_frame ops : forall st, inv st -> forallb (fun p => negb (is_owned p)) ops = true ->
+  inv (run st ops) /\ obs_stable st (run st ops).
 Proof.
-  intros L. destruct p; cbn [step]; unfold caller_view;
-    repeat match goal with
-           | |- context [match ?x with _ => _ end] => destruct x eqn:?
-           end; cbn; try rewrite app_length; cbn; try lia.
-Qed.
-
-Lemma run_frame ops : forall st o g, inv st -> forallb (fun p => negb (is_owned p)) ops = true ->
-  o < length (st_objs st) ->
-  inv (run st ops) /\ obs (run st ops) o g = obs st o g /\ o < length (st_objs (run st ops)).
-Proof.
-  induction ops as [|p r IH]; intros st o g I F L; unfold run in *; cbn [fold_left forallb] in *; [split; [exact I|split; [reflexivity|exact L]]|].
-  apply andb_prop in F. destruct F as (Fp & Fr). apply negb_true_iff in Fp.
-  destruct (step_frame st p I Fp) as (I' & P & K).
-  pose proof (objs_monotone st p o L) as L'.
-  destruct (IH (step st p) o g I' Fr L') as (I'' & E & L'').
-  split; [exact I''|split; [|exact L'']]. rewrite E.
-  apply obs_preserved; try assumption. intros ob. apply K.
+  induction ops as [|p r IH]; intros st I F; unfold run in *; cbn [fold_left forallb] in *.
+  - split; [exact I|split; [lia|reflexivity]].
+  - apply andb_prop in F. destruct F as (Fp & Fr). apply negb_true_iff in Fp.
+    destruct (step_frame st p I Fp) as (I' & (L1 & S1)).
+    destruct (IH (step st p) I' Fr) as (I'' & (L2 & S2)).
+    split; [exact I''|]. split; [lia|]. intros o g L. rewrite S2 by lia. apply S1. exact L.
 Qed.
 
 (** C12_noninterference: whatever the caller writes into any buffer it holds — arguments it passed,
-    results it got back, append destinations — and whatever API calls follow, every observation of
-    every object equals its observation when the object was created. *)
+    results it got back (including the result of the call that FIRED the encode memo), append
+    destinations and scratch buffers — and whatever API calls follow, every observation of every
+    object equals its observation when the object was created. *)
 Theorem noninterference pre post o g :
   forallb (fun p => negb (is_owned p)) (pre ++ post) = true ->
   o < length (st_objs (run init pre)) ->
@@ -255,22 +377,63 @@ Theorem noninterference pre post o g :
 Proof.
   intros F L. rewrite forallb_app in F. apply andb_prop in F. destruct F as (Fpre & Fpost).
   unfold run at 1. rewrite fold_left_app. fold (run init pre). fold (run (run init pre) post).
-  assert (I : inv (run init pre)).
-  { destruct pre as [|p r]; [apply inv_init|].
-    (* run_frame needs an existing object only for the obs part; the invariant part is generic *)
-    clear L Fpost. revert Fpre. generalize (p :: r). intros ops. generalize inv_init. generalize init.
-    induction ops as [|q s IH]; intros st I F; cbn in *; [exact I|].
-    apply andb_prop in F. destruct F as (Fq & Fs). apply negb_true_iff in Fq.
-    apply IH; [apply (step_frame st q I Fq)|exact Fs]. }
-  apply (run_frame post (run init pre) o g I Fpost L).
+  destruct (run_frame pre init inv_init Fpre) as (I & _).
+  destruct (run_frame post (run init pre) I Fpost) as (_ & (_ & S)). apply S. exact L.
 Qed.
 
-(** the disjointness the theorem rests on, as a reachable-state invariant *)
+(** the disjointness the theorem rests on, as a reachable-state invariant: every cell a body
+    retains — its value cells AND its encode memo — is object-owned, every buffer the caller holds
+    is caller-owned *)
 Theorem disjoint_ownership ops : forallb (fun p => negb (is_owned p)) ops = true -> inv (run init ops).
+Proof. intros F. apply (run_frame ops init inv_init F). Qed.
+
+(** The call that FIRES the encode memo returns a fresh caller-owned cell: after the first
+    serialiser call on a constructed message, the memo is an object-owned cell, the slice handed to
+    the caller is a different, caller-owned cell, and both hold the encoding. *)
+Theorem memo_firing_call_returns_fresh_cell st o bi b : inv st ->
+  nth_error (st_objs st) o = Some bi -> nth_error (st_bodies st) bi = Some b -> b_memo b = MUnfired ->
+  let st' := step st (OGet o 1) in
+  exists v m b',
+    st_caller st' = st_caller st ++ [v] /\ caller_owned (st_heap st') v /\
+    body_of st' o = Some b' /\ b_memo b' = MFired m /\ obj_owned (st_heap st') m /\
+    v_cell v <> v_cell m /\
+    read (st_heap st') v = read (st_heap st') m /\
+    read (st_heap st') m = obs st o 1.
 Proof.
-  generalize inv_init. generalize init. induction ops as [|q s IH]; intros st I F; cbn in *; [exact I|].
-  apply andb_prop in F. destruct F as (Fq & Fs). apply negb_true_iff in Fq.
-  apply IH; [apply (step_frame st q I Fq)|exact Fs].
+  intros I Eo Eb Em. cbv zeta. cbn [step].
+  destruct (fire_spec st o 1 I) as (I1 & P1 & Eo1 & Ec1 & Obs1).
+  assert (Lbi : bi < length (st_bodies st)) by (apply nth_error_Some; congruence).
+  (* what fire did *)
+  assert (Hf : exists m, body_of (fire st o 1) o = Some {| b_groups := b_groups b; b_memo := MFired m |}).
+  { unfold fire, body_of. cbn [negb Nat.eqb]. rewrite Eo, Eb, Em.
+    destruct (alloc (st_heap st) (Obj bi) (flat_map (read (st_heap st)) (group b 1))) as [h1 a] eqn:Ea.
+    cbn. rewrite Eo. rewrite set_nth_same by assumption. eauto. }
+  destruct Hf as (m & Hb'). set (st1 := fire st o 1) in *.
+  set (b' := {| b_groups := b_groups b; b_memo := MFired m |}) in *.
+  assert (Bok' : body_ok (st_heap st1) b').
+  { destruct I1 as (Ib1 & _ & _). unfold body_of in Hb'. rewrite Eo1, Eo in Hb'.
+    rewrite Forall_forall in Ib1. apply Ib1. eapply nth_error_In. exact Hb'. }
+  destruct Bok' as (_ & (Om & Em')). cbn [b_memo b'] in Om, Em'.
+  set (d := obs st1 o 1).
+  assert (Dm : d = read (st_heap st1) m).
+  { unfold d, obs. rewrite Hb'. reflexivity. }
+  pose proof (preserves_alloc (st_heap st1) Caller d) as P.
+  pose proof (alloc_owner (st_heap st1) Caller d) as O.
+  pose proof (alloc_data (st_heap st1) Caller d) as D.
+  destruct (alloc (st_heap st1) Caller d) as [h1 a] eqn:Ea. cbn [fst snd] in P, O, D.
+  exists (whole a (length d)), m, b'. cbn [st_caller st_heap].
+  assert (Om1 : obj_owned h1 m) by (eapply obj_owned_preserved; eassumption).
+  assert (Rv : read h1 (whole a (length d)) = d).
+  { unfold read, whole, sub. cbn. rewrite D, firstn_all. reflexivity. }
+  assert (Rm : read h1 m = read (st_heap st1) m) by (apply read_preserved; assumption).
+  repeat split.
+  - rewrite Ec1. reflexivity.
+  - exact O.
+  - unfold body_of in *. cbn. exact Hb'.
+  - exact Om1.
+  - intros C. destruct Om1 as (id & Hid). unfold whole in C. cbn in C. rewrite <- C in Hid. congruence.
+  - rewrite Rv, Rm. exact Dm.
+  - rewrite Rm, <- Dm. unfold d. apply Obs1.
 Qed.
 
 (** Positive control: with the ownership-transferring entry point the same caller write DOES change
